@@ -608,6 +608,92 @@ example : rewriteTarget (str "/a%41?x") = str "/aA" := by decide
 example : siteHide (str "/w") [str "*.txt"] (some (str "Caddyfile")) = [str "*.txt", str "./Caddyfile"] := by decide
 example : Normal (pathClean (str "Caddyfile")) ∧ hasMeta (fastAbs (str "/w") (pathClean (str "Caddyfile"))) = false := by decide
 
+/-! ## several file servers on one request (pass_thru overlays, handle_errors) -/
+
+/-- the answer of a pass_thru chain is the answer one of its handlers gives ALONE (or every
+    handler passed the request on) -/
+theorem chainServe_outcome (fs : FS) (path : Bytes) : ∀ (cs : List Cfg),
+    (chainServe fs cs path).1 = .passThru ∨ ∃ c ∈ cs, (serve fs c path path).1 = (chainServe fs cs path).1 := by
+  intro cs
+  induction cs with
+  | nil => left; rfl
+  | cons c rest ih =>
+    unfold chainServe
+    split
+    · rename_i t hs
+      rw [appendTrace_fst]
+      rcases ih with h | ⟨c', hc', e⟩
+      · left; exact h
+      · right; exact ⟨c', by simp [hc'], e⟩
+    · right; exact ⟨c, by simp, rfl⟩
+
+/-- **chain_serves_by_the_serving_handlers_own_rules.** Through any number of `file_server`
+    handlers on one request (an overlay of roots joined by pass_thru), the bytes of a file are sent
+    only by a handler below whose OWN root the file lies and whose OWN hide list does not hide it —
+    whatever handlers ran before on the same request, with whatever roots and hide lists; the
+    answer is exactly what that handler gives when it is the only one. -/
+theorem chain_serves_by_the_serving_handlers_own_rules (fs : FS) (cs : List Cfg) (path p : Bytes) (id : Nat)
+    (hfs : fs [] = .missing) (h : (chainServe fs cs path).1 = .file p id) :
+    ∃ c ∈ cs, (serve fs c path path).1 = .file p id ∧ UnderS c.rootC p ∧ c.hidden p = false ∧ fs p = .file id := by
+  rcases chainServe_outcome fs path cs with e | ⟨c, hc, e⟩
+  · rw [h] at e; cases e
+  · rw [h] at e
+    exact ⟨c, hc, e, served_path_under_root fs c path path p id hfs e⟩
+
+/-- … and a listing is the listing of a directory that handler may list, filtered by that handler's
+    own hide list -/
+theorem chain_lists_by_the_serving_handlers_own_rules (fs : FS) (cs : List Cfg) (path p : Bytes) (ns : List Bytes)
+    (hfs : fs [] = .missing) (h : (chainServe fs cs path).1 = .listing p ns) :
+    ∃ c ∈ cs, UnderS c.rootC p ∧ c.hidden p = false ∧
+      ∃ es, fs p = .dir es ∧ ns = (es.filter fun e => !(c.hidden e.name || entryHiddenByPath c p e)).map showEntry := by
+  rcases chainServe_outcome fs path cs with e | ⟨c, hc, e⟩
+  · rw [h] at e; cases e
+  · rw [h] at e
+    obtain ⟨hu, hh, _⟩ := listed_dir_under_root fs c path path p ns hfs e
+    obtain ⟨es, hes, hn⟩ := listing_is_exactly_the_unhidden_entries fs c path path p ns hfs e
+    exact ⟨c, hc, hu, hh, es, hes, hn⟩
+
+/-- the same for a `file_server` inside `handle_errors`: the answer is the answer of the site's
+    handler alone or of the error route's handler alone -/
+theorem errServe_outcome (fs : FS) (c1 c2 : Cfg) (path : Bytes) :
+    (errServe fs c1 c2 path).1 = (serve fs c1 path path).1 ∨ (errServe fs c1 c2 path).1 = (serve fs c2 path path).1 := by
+  unfold errServe
+  cases h1 : serve fs c1 path path with
+  | mk o t =>
+    simp only []
+    split
+    · cases h2 : serve fs c2 path path with
+      | mk o2 t2 =>
+        simp only []
+        split
+        · left; rfl
+        · right; rfl
+    · left; rfl
+
+theorem error_route_serves_by_its_own_rules (fs : FS) (c1 c2 : Cfg) (path p : Bytes) (id : Nat)
+    (hfs : fs [] = .missing) (h : (errServe fs c1 c2 path).1 = .file p id) :
+    ∃ c, (c = c1 ∨ c = c2) ∧ UnderS c.rootC p ∧ c.hidden p = false ∧ fs p = .file id := by
+  rcases errServe_outcome fs c1 c2 path with e | e <;> rw [h] at e
+  · exact ⟨c1, Or.inl rfl, served_path_under_root fs c1 path path p id hfs e.symm⟩
+  · exact ⟨c2, Or.inr rfl, served_path_under_root fs c2 path path p id hfs e.symm⟩
+
+/-- **fileserver_keeps_no_state_in_request_vars.** A static second line behind op `two`: the only
+    write of the fileserver package into the request's variable table (which every handler of the
+    request shares) is the matcher's error slot — no hide list, root or other per-handler value is
+    parked there under a key that does not name the handler. Regenerated from the source. -/
+theorem fileserver_keeps_no_state_in_request_vars :
+    CaddyModel.Gen.fileserverVarWrites = [("matcher.go", "Match", "caddyhttp.MatcherErrorVarKey")] := by decide
+
+/-- root A (`/w`, no hide rules, pass_thru) in front of the site of `wCfg` (hide `/srv/secret.txt`) -/
+def overlayA : Cfg := { wCfg with root := str "/w", hide := [], passThru := true, browse := false }
+
+example : (chainServe wFS [overlayA, wCfg] (str "/a.txt")).1 = .file (str "/srv/a.txt") 1 := by decide
+-- the second handler still hides what ITS list hides, although the first one has no hide rules
+example : (chainServe wFS [overlayA, wCfg] (str "/secret.txt")).1 = .notFound := by decide
+example : (chainServe wFS [overlayA, wCfg] (str "/")).1 = .listing (str "/srv") [str "a.txt"] := by decide
+example : (errServe wFS { overlayA with passThru := false } wCfg (str "/secret.txt")).1 = .notFound := by decide
+example : (errServe wFS { overlayA with passThru := false } wCfg (str "/a.txt")).1 = .file (str "/srv/a.txt") 1 := by decide
+
 /-! ## model sanity: fuel
 
 `globMatch_never_runs_out_of_fuel`, `chunkMatch_never_runs_out_of_fuel` and
